@@ -1,12 +1,13 @@
 \* every-transition replay graph of the set_time dead band for the real GlideProcessor at 100 Hz
-\* (times in units of 10 ms; no two of them are exactly one dead band apart)
+\* (times in units of 10 ms; no two of them are exactly one dead band apart; eleven times, so that every
+\* history of five set_time calls followed by a probe fits the replay budget)
 SPECIFICATION GSpec
 CONSTANTS
   Dead = 5
   TFast = 2
   TSlow = 1000
   Design = "one-pole"
-  Times = {0, 1, 3, 4, 7, 10, 13, 19, 50, 53, 57, 64, 1000, 1004, 1007, 1013, 1200}
+  Times = {0, 1, 4, 8, 10, 12, 50, 53, 1000, 1004, 1200}
   Inputs <- InputSet
   SettleBound = 12
 VIEW GKey
